@@ -110,6 +110,15 @@ CHECKS["C09"] = dict(
     technique="symbolic execution of the real grids on symbolic poses (free or quaternion-parametrised directors) + z3 (nlsat) identity queries",
     design="DESIGN.md section 5 C09")
 
+CHECKS["C03"] = dict(
+    text="Bounded symbolic checking: the real solver objects are built concretely (Fourier Green's table = what real FFTW produced), then solve()/vector_field_solve() run on a right-hand side "
+         "of solver variables with all three work buffers and the solution array arbitrary; the FFTW plans are replaced by an exact-DFT stub (validated against real pyfftw on every shape). "
+         "QF_LRA queries bound, per output cell and for all right-hand sides in [-1,1]^n, the distance to the analytic aperiodic convolution with the free-space Green's function (self-cell "
+         "regularisation, dx^d factor, no periodic images); two-copy queries show independence of buffer history; the vector solve equals scalar solves.",
+    technique="symbolic execution of the real solve() on affine forms with an exact-DFT stub for FFTW + z3 QF_LRA tolerance query per cell; two-copy history-independence queries",
+    design="DESIGN.md section 5 C03",
+    note="pyfftw plans replaced by their mathematical contract (validated numerically each run); Green's table entries read as exact rationals; 40-digit twiddles; exact reals; z3")
+
 NOT_APPLICABLE = {
     "C02": "convergence of whole simulations over resolution families: thousands of time steps of floating-point code on 32^2..128^2 grids; no bound on steps/sizes under which a solver query is still the property (DESIGN.md section 5 C02). Its solver-decidable ingredients are claimed under C01, C03, C05, C16.",
 }
